@@ -110,8 +110,14 @@ class G:
                 parts = []
                 for _ in range(k):
                     st = r.choice(styles)
-                    parts.append(render(search_ws, st))
-                seps = [" ", ", ", " = ", "(", "); ", " \"", "\" ", "é ", " -- "]
+                    w = render(search_ws, st)
+                    # sometimes inside a larger identifier of the same style (compound match)
+                    if r.random() < 0.3 and st in ("Snake", "Kebab", "Camel", "Pascal", "ScreamingSnake"):
+                        pre, suf = r.choice(["get", "my", "x"]), r.choice(["hi", "impl", "v2"])
+                        w = {"Snake": f"{pre}_{w}_{suf}", "Kebab": f"{pre}-{w}-{suf}", "Camel": f"{pre}{w[:1].upper()}{w[1:]}{suf.capitalize()}",
+                             "Pascal": f"{pre.capitalize()}{w}{suf.capitalize()}", "ScreamingSnake": f"{pre.upper()}_{w}_{suf.upper()}"}[st]
+                    parts.append(w)
+                seps = [" ", ", ", " = ", "(", "); ", " \"", "\" ", "é ", " -- ", "..", "...", ".", "::", "->", "..=", "/", "[", "]."]
                 ln = r.choice(["", "x ", "café ", "-- ", "let "]) + r.choice(seps).join(parts) + r.choice(["", ";", " y", ")"])
                 lines.append(ln)
             else:
